@@ -16,7 +16,10 @@ NoCase == [text |-> "", den |-> [vec |-> Emp, terms |-> << >>], cls |-> ""]
 F(k) == Forms[k]
 Leaf(lit, k, e) == LeafDen(clo, lit, F(k).u, F(k).pk, F(k).pe, e)
 Q(lit, k) == lit \o " " \o F(k).text
-Exps == << [t |-> "^2", e |-> <<2, 1>>], [t |-> "^(-1)", e |-> <<-1, 1>>], [t |-> "^(1/2)", e |-> <<1, 2>>], [t |-> "^3", e |-> <<3, 1>>] >>
+Exps == << [t |-> "^2", e |-> <<2, 1>>], [t |-> "^(-1)", e |-> <<-1, 1>>], [t |-> "^(1/2)", e |-> <<1, 2>>], [t |-> "^3", e |-> <<3, 1>>],
+           [t |-> "^(1/3)", e |-> <<1, 3>>], [t |-> "^(4/3)", e |-> <<4, 3>>], [t |-> "^(-3/2)", e |-> <<-3, 2>>], [t |-> "^(3/4)", e |-> <<3, 4>>] >>
+\* roots whose unit keeps a non-integral exponent, added to the same root of another spelling: forces a conversion between them
+Roots == << [t |-> "^(1/3)", e |-> <<1, 3>>], [t |-> "^(2/3)", e |-> <<2, 3>>], [t |-> "^(1/2)", e |-> <<1, 2>>], [t |-> "^(-1/4)", e |-> <<-1, 4>>] >>
 
 Completions(k) ==
      { [text |-> Q("3", k), den |-> Leaf("3", k, R(1)), cls |-> "single"] }
@@ -26,6 +29,9 @@ Completions(k) ==
             : j \in {x \in SumPartners : clo[F(x).u].vec = clo[F(k).u].vec} }
   \cup { [text |-> Q("3", k) \o " - " \o Q("1e6", j), den |-> DSub(Leaf("3", k, R(1)), Leaf("1e6", j, R(1))), cls |-> "sum"]
             : j \in {x \in SumPartners : clo[F(x).u].vec = clo[F(k).u].vec} }
+  \cup { [text |-> "(" \o Q("8", k) \o ")" \o Roots[x].t \o " + (" \o Q("27", j) \o ")" \o Roots[x].t,
+          den |-> DAdd(DPow(Leaf("8", k, R(1)), Roots[x].e), DPow(Leaf("27", j, R(1)), Roots[x].e)), cls |-> "rootsum"]
+            : x \in 1..Len(Roots), j \in {y \in SumPartners : clo[F(y).u].vec = clo[F(k).u].vec} }
   \cup { [text |-> Q("3", k) \o " * " \o Q("2", j), den |-> DMul(Leaf("3", k, R(1)), Leaf("2", j, R(1))), cls |-> "product"] : j \in Partners }
   \cup { [text |-> Q("1e-6", k) \o " / (" \o Q("2", j) \o ")", den |-> DDiv(Leaf("1e-6", k, R(1)), Leaf("2", j, R(1))), cls |-> "product"] : j \in Partners }
   \cup { [text |-> "(" \o Q("3", k) \o " + " \o Q("3", k) \o ") * " \o Q("2", j) \o " / (" \o Q("5", j2) \o ")^2",
